@@ -631,6 +631,9 @@ struct timespec* sentTime) {
     return result;
 
   case bs_sendCmdCrc:
+    if (!sending || m_currentRequest == nullptr) {
+      return setState(bs_skip, RESULT_ERR_INVALID_ARG);
+    }
     if (m_currentRequest->getMaster()[1] == BROADCAST) {
       messageCompleted();
       return setState(bs_sendSyn, result);
